@@ -232,8 +232,7 @@ func runSeqUInt64Map(sc *seqCase, st *seqStats) (fail *seqFail) {
 		}
 		return nil
 	}
-	full := func() *seqFail {
-		st.fullChecks++
+	light := func() *seqFail {
 		if m.Len() != len(ref) {
 			return bad("miscount", "Len()=%d, reference map holds %d keys", m.Len(), len(ref))
 		}
@@ -241,6 +240,13 @@ func runSeqUInt64Map(sc *seqCase, st *seqStats) (fail *seqFail) {
 			if f := checkKey(k); f != nil {
 				return f
 			}
+		}
+		return nil
+	}
+	full := func() *seqFail {
+		st.fullChecks++
+		if f := light(); f != nil {
+			return f
 		}
 		seen := make(map[uint64]struct{}, len(ref))
 		var f *seqFail
@@ -467,8 +473,13 @@ func runSeqUInt64Map(sc *seqCase, st *seqStats) (fail *seqFail) {
 					return f
 				}
 			}
-			if len(ref) <= 96 || i%61 == 0 || lastMut == "grow" && len(ref) <= 1024 {
+			switch {
+			case i%13 == 0 || lastMut == "grow" && len(ref) <= 1024 || m.VerifC16Buckets() <= 64 && len(ref) <= 48:
 				if f := full(); f != nil {
+					return f
+				}
+			case len(ref) <= 96:
+				if f := light(); f != nil {
 					return f
 				}
 			}
@@ -593,8 +604,7 @@ func runSeqSeg(sc *seqCase, st *seqStats) (fail *seqFail) {
 		}
 		return nil
 	}
-	full := func() *seqFail {
-		st.fullChecks++
+	light := func() *seqFail {
 		if t.length() != len(ref) {
 			return bad("miscount", "Len()=%d, reference map holds %d keys", t.length(), len(ref))
 		}
@@ -602,6 +612,13 @@ func runSeqSeg(sc *seqCase, st *seqStats) (fail *seqFail) {
 			if f := checkKey(k); f != nil {
 				return f
 			}
+		}
+		return nil
+	}
+	full := func() *seqFail {
+		st.fullChecks++
+		if f := light(); f != nil {
+			return f
 		}
 		seen := make(map[uint64]struct{}, len(ref))
 		var f *seqFail
@@ -864,8 +881,13 @@ func runSeqSeg(sc *seqCase, st *seqStats) (fail *seqFail) {
 			if t.length() != len(ref) {
 				return bad("miscount", "Len()=%d, reference map holds %d keys", t.length(), len(ref))
 			}
-			if len(ref) <= 64 || i%61 == 0 {
+			switch {
+			case i%29 == 0:
 				if f := full(); f != nil {
+					return f
+				}
+			case len(ref) <= 64:
+				if f := light(); f != nil {
 					return f
 				}
 			}
